@@ -150,6 +150,15 @@ class WrapperModel:
                 self.returns.append((cond, 'void', s))
                 return
             e2 = strip(e)
+            while isinstance(e2, dict) and e2.get('k') in ('cast', 'paren') and isinstance(e2.get('e'), dict) and \
+                    strip(e2['e']).get('k') in ('cond', 'cast', 'paren'):
+                e2 = strip(e2['e'])
+            if e2.get('k') == 'cond':
+                # `return flag ? f<true>(..) : f<false>(..);` is `if (flag) return f<true>(..); else return f<false>(..);`
+                self._walk_block({'k': 'if', 'c': e2['c'], 'l': s.get('l'),
+                                 'then': {'k': 'return', 'e': e2['then'], 'l': s.get('l')},
+                                 'else': {'k': 'return', 'e': e2['else'], 'l': s.get('l')}}, env, cond)
+                return
             if e2.get('k') in ('call', 'icall'):
                 fw = self._call(e2, env, cond, is_return=True)
                 if fw != 'helper':
